@@ -122,9 +122,27 @@ def compare(gd, gd2, tf, out, out2, prune, an):
             continue
         gapT = max(T) if T is not None else 1e3
         if all(vals[inv[a]] == opt for a in diff if a in inv) and all(a in inv for a in diff):
-            tie_split = True
-            known.append({"state": s, "problem": "reachability strategies of the two presentations differ only in exactly tied optimal actions",
-                          "g": r1[1][s], "g2": got})
+            # the open finding explains an omission only if, in the presentation that omits the action, its successor's
+            # reported float rounds to another 6-digit cell than the listed ones; equal cells must be listed together
+            explained = True
+            for a2 in diff:
+                a1 = inv[a2]
+                t1 = dict(tr)[a1]
+                if a2 in exp and a2 not in got:          # omitted in g'
+                    listed = {round(r2[3][perm[dict(tr)[inv[b]]]], analysis.DIGITS) for b in got if b in inv}
+                    if round(r2[3][perm[t1]], analysis.DIGITS) in listed:
+                        explained = False
+                elif a2 in got and a2 not in exp:        # omitted in g
+                    listed = {round(r1[3][dict(tr)[b]], analysis.DIGITS) for b in r1[1][s]}
+                    if round(r1[3][t1], analysis.DIGITS) in listed:
+                        explained = False
+            if explained:
+                tie_split = True
+                known.append({"state": s, "problem": "reachability strategies of the two presentations differ only in exactly tied optimal actions",
+                              "g": r1[1][s], "g2": got})
+            else:
+                problems.append({"state": s, "problem": "an exactly tied optimal action whose reported value rounds to the same cell is listed in one presentation and omitted in the other",
+                                 "g": r1[1][s], "g2": got, "expected": exp})
         elif any(a in inv and abs(float(vals[inv[a]] - opt)) > analysis.sep_gap(gapT, gapT) for a in diff) or any(a not in inv for a in diff):
             problems.append({"state": s, "problem": "reachability strategy changed beyond the renaming", "g": r1[1][s], "g2": got, "expected": exp})
         else:
@@ -143,6 +161,26 @@ def compare(gd, gd2, tf, out, out2, prune, an):
         stats["tol_inconclusive_pairs"] = 1
         return problems, known, stats
     final_split = False
+    if prune:
+        # states outside the closure: whether they are blanked, and what they report, is a function of the game's structure
+        # (the blanking loop runs to a fixed point), so it must not depend on the presentation either
+        try:
+            tall = float(an.tmax_solve)
+            rall = float(an.rmax_solve(True))
+        except OracleInconclusive:
+            tall = None
+        if tall is not None:
+            for s in range(n):
+                if s in cond.scope:
+                    continue
+                stats["outside_closure_states_compared"] = stats.get("outside_closure_states_compared", 0) + 1
+                tol = 2 * (analysis.DELTA * max(tall, 1.0) + analysis.eps_fp(rall))
+                if abs(r1[2][s] - r2[2][perm[s]]) > tol:
+                    problems.append({"state": s, "problem": "expected reward of a state outside the reachable part differs between presentations beyond tolerance",
+                                     "g": r1[2][s], "g2": r2[2][perm[s]], "tol": tol})
+                if gd["players"][s] != PR and (r1[0][s] == []) != (r2[0][perm[s]] == []):
+                    problems.append({"state": s, "problem": "a state outside the reachable part is blanked in one presentation and not in the other",
+                                     "g": r1[0][s], "g2": r2[0][perm[s]]})
     for s in sorted(cond.scope):
         tol = 2 * (analysis.DELTA * max(Tc[s], 1.0) + analysis.eps_fp(Vc[s]))
         d = abs(r1[2][s] - r2[2][perm[s]])
@@ -169,9 +207,24 @@ def compare(gd, gd2, tf, out, out2, prune, an):
         if not diff:
             problems.append({"state": s, "problem": "final strategy order does not follow the transformed transition order", "got": got, "expected": exp})
         elif all(a in inv and vals[inv[a]] == opt for a in diff):
-            final_split = True
-            known.append({"state": s, "problem": "final strategies of the two presentations differ only in exactly tied optimal actions",
-                          "g": r1[0][s], "g2": got})
+            explained = True
+            for a2 in diff:
+                t1 = dict(trc)[inv[a2]]
+                if a2 in exp and a2 not in got:
+                    listed = {round(r2[2][perm[dict(trc)[inv[b]]]], analysis.DIGITS) for b in got if b in inv}
+                    if round(r2[2][perm[t1]], analysis.DIGITS) in listed:
+                        explained = False
+                elif a2 in got and a2 not in exp:
+                    listed = {round(r1[2][dict(trc)[b]], analysis.DIGITS) for b in r1[0][s] if b in dict(trc)}
+                    if round(r1[2][t1], analysis.DIGITS) in listed:
+                        explained = False
+            if explained:
+                final_split = True
+                known.append({"state": s, "problem": "final strategies of the two presentations differ only in exactly tied optimal actions",
+                              "g": r1[0][s], "g2": got})
+            else:
+                problems.append({"state": s, "problem": "an exactly tied reward-optimal action whose reported value rounds to the same cell is listed in one presentation and omitted in the other",
+                                 "g": r1[0][s], "g2": got, "expected": exp})
         elif any(a not in inv or abs(float(vals[inv[a]] - opt)) > analysis.sep_gap(max(Tc), max(Tc)) for a in diff):
             problems.append({"state": s, "problem": "final strategy changed beyond the renaming", "g": r1[0][s], "g2": got, "expected": exp})
         else:
